@@ -1,5 +1,6 @@
 #!/usr/bin/env python3
 """Trace validation helpers: run TLC on packed traces; diagnose a rejection."""
+import time
 import json, os, re, subprocess, sys, tempfile, shutil
 
 ROOT = os.path.dirname(os.path.dirname(os.path.abspath(__file__)))
@@ -57,7 +58,7 @@ def pack(traces, out):
     json.dump(traces, open(out, "w"))
 
 
-def run_tlc(cfg, module, env=None, workers=4, timeout=600, extra=None, gen=GEN, dfs=True, heap=None):
+def run_tlc(cfg, module, env=None, workers=4, timeout=600, extra=None, gen=GEN, dfs=True, heap=None, cancel=None):
     """dfs=True: trace validation (single worker, depth-first queue, small heap);
     otherwise exhaustive model checking. The heap is capped explicitly: TLC sizes its
     fingerprint set from the maximal heap and the JVM default (1/4 of RAM) times 16
@@ -74,27 +75,36 @@ def run_tlc(cfg, module, env=None, workers=4, timeout=600, extra=None, gen=GEN, 
         # own process group: a timeout must not leave the JVM behind
         p = subprocess.Popen(cmd, cwd=gen, env=e, stdout=subprocess.PIPE, stderr=subprocess.STDOUT, text=True,
                              start_new_session=True)
-        try:
-            out, _ = p.communicate(timeout=timeout)
-            rc = p.returncode
-        except subprocess.TimeoutExpired:
+        t_end = time.time() + timeout
+        while True:
             try:
-                os.killpg(p.pid, 9)
-            except OSError:
-                pass
-            out, _ = p.communicate()
-            rc = -9
+                out, _ = p.communicate(timeout=2 if cancel is not None else timeout)
+                rc = p.returncode
+                break
+            except subprocess.TimeoutExpired:
+                cancelled = cancel is not None and cancel.is_set()
+                if not cancelled and time.time() < t_end:
+                    continue
+                try:
+                    os.killpg(p.pid, 9)
+                except OSError:
+                    pass
+                out, _ = p.communicate()
+                rc = -10 if cancelled else -9
+                break
     finally:
         shutil.rmtree(meta, ignore_errors=True)
     return rc, out
 
 
 def _validate_part(args):
-    scen_name, part, idxs, timeout = args
+    scen_name, part, idxs, timeout, cancel = args
+    if cancel.is_set():
+        return set(), "", {"rc": -10, "generated": 0, "distinct": 0, "violated": [], "cancelled": list(idxs)}
     tmpdir = tempfile.mkdtemp(prefix="vrt_tr_")
     path = os.path.join(tmpdir, f"traces_{scen_name}.json")
     pack(part, path)
-    rc, out = run_tlc(f"MCT_{scen_name}.cfg", f"MCT_{scen_name}.tla", {"VRT_TRACES": path}, 1, timeout)
+    rc, out = run_tlc(f"MCT_{scen_name}.cfg", f"MCT_{scen_name}.tla", {"VRT_TRACES": path}, 1, timeout, cancel=cancel)
     shutil.rmtree(tmpdir, ignore_errors=True)
     acc = set(idxs[int(m) - 1] for m in re.findall(r'<<"ACCEPT", (\d+)>>', out))
     st = {"rc": rc, "generated": 0, "distinct": 0}
@@ -105,8 +115,14 @@ def _validate_part(args):
     if st["violated"]:
         mk = re.findall(r"/\\ tk = (\d+)", out)
         st["violated_trace"] = idxs[int(mk[-1]) - 1] if mk else idxs[0]
-    if ("Error:" in out and not st["violated"]) or rc == -9:
+    if rc == -10:
+        # stopped because another batch already produced a rejection/violation: the rest is unexamined
+        st["cancelled"] = [j for j in idxs if j not in acc]
+        st["violated"] = []
+    elif ("Error:" in out and not st["violated"]) or rc == -9:
         st["error"] = out[out.find("Error:"):][:2000] if "Error:" in out else "timeout"
+    elif st["violated"] or len(acc) < len(idxs):
+        cancel.set()
     return acc, out, st
 
 
@@ -119,14 +135,17 @@ def validate(scen_name, traces, workers=16, timeout=900, tmpdir=None):
     parts = [[] for _ in range(nproc)]
     for i in range(n):
         parts[i % nproc].append(i + 1)
-    jobs = [(scen_name, [traces[j - 1] for j in idxs], idxs, timeout) for idxs in parts if idxs]
+    import threading
+    cancel = threading.Event()   # one rejected trace decides the run: the other batches are stopped
+    jobs = [(scen_name, [traces[j - 1] for j in idxs], idxs, timeout, cancel) for idxs in parts if idxs]
     acc, outs = set(), []
-    st = {"generated": 0, "distinct": 0, "violated": [], "rc": 0}
+    st = {"generated": 0, "distinct": 0, "violated": [], "rc": 0, "cancelled": []}
     with cf.ThreadPoolExecutor(max_workers=nproc) as ex:
         for a, out, s in ex.map(_validate_part, jobs):
             acc |= a
             st["generated"] += s["generated"]
             st["distinct"] += s["distinct"]
+            st["cancelled"] += s.get("cancelled", [])
             for v in s["violated"]:
                 st["violated"].append((v, s.get("violated_trace")))
                 outs.append(out)
